@@ -780,15 +780,17 @@ class Table(JupyterMixin):
                     and not (show_header and header_row)
                 ):
                     if leading:
-                        yield _Segment(
-                            _box.get_row(widths, "mid", edge=show_edge) * leading,
-                            border_style,
-                        )
+                        for _ in range(leading):
+                            yield _Segment(
+                                _box.get_row(widths, "mid", edge=show_edge),
+                                border_style,
+                            )
+                            yield new_line
                     else:
                         yield _Segment(
                             _box.get_row(widths, "row", edge=show_edge), border_style
                         )
-                    yield new_line
+                        yield new_line
 
         if _box and show_edge:
             yield _Segment(_box.get_bottom(widths), border_style)
